@@ -6,6 +6,8 @@ run sequentially against one squid; the origin answer attached to a request is u
 for that request id.  Every origin contact creates a new version number.  The result is the abstract event list
 Clock / Req / Fwd / OResp / CResp that the Trace_* modules consume (abstract fields from "abs" are merged in)."""
 import asyncio
+import os
+import socket
 import time
 
 import peers
@@ -153,6 +155,17 @@ class CacheRun:
         self.set_clock(0)
         ev.append({'e': 'Clock', 't': 0})
         sid = self.nscen
+        slow = []
+        try:
+            return await self._run_steps(scen, sid, ev, slow)
+        finally:
+            for sk in slow:
+                try:
+                    sk.close()
+                except OSError:
+                    pass
+
+    async def _run_steps(self, scen, sid, ev, slow):
         for step in scen['steps']:
             if step['op'] == 'clock':
                 self.set_clock(step['t'])
@@ -161,6 +174,36 @@ class CacheRun:
                 continue
             if step['op'] == 'sleep':
                 await asyncio.sleep(step['s'])
+                continue
+            if step['op'] == 'slowreq':
+                # a client that takes the response header and then stops reading (tiny receive buffer): the transaction - and
+                # its hold on the cached entry - stays alive until the end of the scenario.  Linearised at header arrival.
+                vid = '%d.%s' % (sid, step['id'])
+                self.pending[vid] = (ev, step)
+                url = 'http://%s:%d/s%d/%s' % (step.get('host', '127.0.0.1'), self.origin.port, sid, step.get('key', 'a'))
+                ev.append({'e': 'Req', 'id': step['id'], 'method': 'GET', 'key': step.get('key', 'a')})
+                sk = socket.socket(socket.AF_INET, socket.SOCK_STREAM)
+                sk.setsockopt(socket.SOL_SOCKET, socket.SO_RCVBUF, 4096)
+                sk.setblocking(False)
+                loop = asyncio.get_event_loop()
+                hv = -1
+                try:
+                    await loop.sock_connect(sk, ('127.0.0.1', self.sq.port))
+                    await loop.sock_sendall(sk, ('GET %s HTTP/1.1\r\nHost: %s\r\nX-Verif-Id: %s\r\n\r\n' % (url, url.split('/')[2], vid)).encode())
+                    got = b''
+                    while b'\r\n\r\n' not in got and len(got) < 16384:
+                        chunk = await asyncio.wait_for(loop.sock_recv(sk, 1024), 10)
+                        if not chunk:
+                            break
+                        got += chunk
+                    for line in got.split(b'\r\n'):
+                        if line.lower().startswith(b'x-verif-version:'):
+                            hv = int(line.split(b':', 1)[1])
+                except (OSError, asyncio.TimeoutError, ValueError):
+                    pass
+                slow.append(sk)
+                ev.append({'e': 'CResp', 'id': step['id'], 'status': 200 if hv >= 0 else 0, 'hv': hv, 'bv': -1, 'blen': 0, 'intact': True, 'complete': False,
+                           'declared': -1, 'hit': False, 'age': -1, 'gen': 0, 'multi': [], 'squid': False, 'hdrs': [], 'slow': True})
                 continue
             vid = '%d.%s' % (sid, step['id'])
             self.pending[vid] = (ev, step)
@@ -232,8 +275,24 @@ def strip_for_tlc(ev, keep_hdrs=False):
 
 async def _worker(ctx, tree, scens, out, wid, squid_kw):
     import squidctl
-    sq = squidctl.Squid(ctx, tree, name='w%d' % wid, **squid_kw)
-    sq.start()
+    squid_kw = dict(squid_kw)
+    store = squid_kw.pop('store', 'mem')
+    tag = squid_kw.pop('tag', '')
+    if store != 'mem':
+        squid_kw['cache_mem'] = '256 KB'
+    sq = squidctl.Squid(ctx, tree, name='w%s%d' % (tag, wid), **squid_kw)
+    if store != 'mem':
+        # hits must come from the cache_dir: objects do not fit the memory cache
+        d = os.path.join(sq.run, 'cd')
+        extra = 'maximum_object_size_in_memory 4 KB\nmaximum_object_size 16 MB\nminimum_object_size 0 KB\n' + (
+            'cache_dir rock %s 96 max-size=16000000\n' % d if store == 'rock' else 'cache_dir %s %s 96 4 16\n' % (store, d))
+        sq.conf_text = sq.conf_text.replace('http_access allow all', extra + 'http_access allow all', 1)
+        open(sq.conf, 'w').write(sq.conf_text)
+        sq.init_dirs()
+    sq.start(wait=40)
+    if store != 'mem':
+        import diskrun
+        diskrun.wait_rebuilt(sq, 15.0)
     try:
         run = await CacheRun(ctx, sq).start()
         for s in scens:
